@@ -47,6 +47,14 @@ func format(tr *tokenReader, w io.Writer) error {
 		case tokenKindReadOnly:
 			readOnly = true
 			continue
+		case tokenKindImport:
+			// import "<path>"
+			importBytes := append(t.concrete, ' ')
+			tr.Next()
+			importBytes = append(importBytes, tr.Token().concrete...)
+			importBytes = append(importBytes, '\n')
+			ew.SafeWrite(importBytes)
+			newlineBeforeNextRecord = true
 		case tokenKindEnum:
 			if newlineBeforeNextRecord {
 				ew.SafeWrite([]byte{'\n'})
